@@ -1,18 +1,32 @@
 import Proofs.Lemmas.ImuCov
 import Proofs.Lemmas.ImuDefect
+import Proofs.Lemmas.ImuGlue
 /-!
-# C16 — IMU preintegration equals the documented recursion and is chunking-invariant
+# C16 — IMU preintegration equals the sequential recursion and is chunking-invariant
 
 Model: `Pose/Model/Imu.lean` (one batch item of `IMUPreintegrator`: `integrate` through the C12 scan, `predict`,
-`propagate_cov`, `forward` with carried buffers, `_check`).  All statements are over the model at `α = ℝ`.
+`propagate_cov`, `forward` with carried buffers and argument resolution, `_check`).  All statements are over the model at `α = ℝ`.
+
+**What "the recursion" means here.**  The specification `preSeq` / `compose` is the recursion in the wording of property C16:
+`dR ← dR·Exp(w dt)`, `dv ← dv + dR a dt`, `dp ← dp + dv dt + ½ dR a dt²`, `a` = measured acceleration with gravity removed by the
+supplied (else the integrated) rotation, composed with the initial state as `R = R₀ΔR`, `v = v₀ + R₀Δv`, `p = p₀ + R₀Δp + v₀Δt`.
+It is the step-by-step form of what `integrate` + `predict` compute; the theorems of §1 say that the parallel-prefix code equals it
+for every frame count.  The DOCSTRING of `forward` / `predict` (py:242-244, 395-397) writes the composition in another convention —
+`R_j = ΔR_ij * R_i` and `v_j = … + gΔt`, `p_j = … + ½gΔt²` with the gravity outside — §10 states the exact relation
+(`doc_form_of_start_rotation`, `doc_order_differs`); the covariance docstring (py:198-199) omits the factor `1/dt` that the code's
+noise term carries (`cov_eq_recursion`).  Domain of the model: `F ≥ 1` frames per call (for `F = 0` the code returns and stores
+empty tensors, the model does not describe that), constructor guard `Cfg.valid` (`reset ∨ prop_cov`).
 
 * recursion clause      : `par_eq_seq_integrate`, `par_eq_seq`, `par_eq_seq_init` — every frame count, no hypothesis;
-* chunk invariance      : `chunk_invariant_two`, `chunk_invariant` — every split into consecutive chunks, `reset = False`,
-                          states `rot, vel, pos` AND the carried covariance / `Rij`;
-* rank equivalence      : `rank_equiv_H`, `rank_equiv_FH`, `rank_assert`;
-* covariance            : `cov_psd` (+ symmetric) for a call, `cov_psd_history` over any sequence of calls,
-                          `cov_eq_recursion` — the returned covariance is the documented `C ← A C Aᵀ + B`.
-The hypothesis "unit increments" of the chunk theorems is discharged by `dr_unit_closed` / `dr_unit_zero`.
+* chunk invariance      : `chunk_invariant_two`, `chunk_invariant` (exact, unit increments), `chunk_invariant_rot_cov` (no hypothesis),
+                          §7 `chunk_two_general` / `chunk_two_every_stream` (every increment, explicit defect and bound);
+* rank equivalence      : carried by the HARNESS (rank-1/2/3 calls bit-identical on the real code; `shape` stream ties `_check` and the
+                          rank assertion to `checkShape` / `rankOk`); `forwardItem` is defined as validate-lift-call, the
+                          consequences (`rank_lift_equiv`, `rank_equiv_H/FH`, `rank_assert`) are in `Lemmas/ImuGlue.lean`;
+* covariance            : `cov_psd`, `cov_psd_init`, `cov_state_psd`, `cov_psd_history` (symmetric PSD, `dt > 0`),
+                          `cov_eq_recursion`, `cov_eq_recursion_init` (`C ← A C Aᵀ + B`, every `F`);
+* glue lemmas (restatements / unfoldings of model definitions: error-path atomicity of `callE`, `resolveCov` / `forwardArgs`,
+  gravity algebra, `code_order`, …) live in `Lemmas/ImuGlue.lean` and are not counted as property theorems.
 -/
 namespace PP.Imu
 open PP M9 Matrix
@@ -175,31 +189,21 @@ theorem chunk_invariant_rot_cov (cfg : Cfg ℝ) (hr : cfg.reset = false) (hp : c
 theorem reset_keeps_state (cfg : Cfg ℝ) (hr : cfg.reset = true) (st : State ℝ) (init : Option (Init ℝ))
     (fr : Nat → Frame ℝ) (F : Nat) : (call cfg st init fr F).st = st := call_st_reset cfg st init fr F hr
 
-/-- with `reset = True` every call of a history is the call on a fresh copy of the object -/
+/-- with `reset = True` every call of a history (each on `≥ 1` frames) is the call on a fresh copy of the object -/
 theorem reset_history (cfg : Cfg ℝ) (hr : cfg.reset = true) (ms : List Nat) :
-    ∀ (st : State ℝ) (fr : Nat → Frame ℝ) (k : Nat) (hk : k < ms.length),
+    (∀ m ∈ ms, 1 ≤ m) → ∀ (st : State ℝ) (fr : Nat → Frame ℝ) (k : Nat) (hk : k < ms.length),
       (runChunks cfg st fr ms)[k]? = some (call cfg st none (fun i => fr ((ms.take k).sum + i)) ms[k]) := by
   induction ms with
-  | nil => intro st fr k hk; simp at hk
+  | nil => intro _ st fr k hk; simp at hk
   | cons m ms ih =>
-    intro st fr k hk
+    intro hms st fr k hk
     cases k with
     | zero => simp [runChunks]
     | succ k =>
       simp only [runChunks, List.getElem?_cons_succ, call_st_reset cfg st none fr m hr, List.take_succ_cons,
         List.sum_cons, List.getElem_cons_succ]
-      rw [ih st _ k (by simpa using hk)]
+      rw [ih (fun x hx => hms x (by simp [hx])) st _ k (by simpa using hk)]
       simp only [Nat.add_assoc]
-
-/-- zero gravity: the (supplied or integrated) rotation plays no role in the acceleration -/
-theorem zero_gravity (R0 Rnext : Quat ℝ) (f : Frame ℝ) : removeG Vec3.zero R0 Rnext f = f.acc := by
-  unfold removeG
-  cases f.rot <;> simp only [Quat.act_zero] <;> (ext <;> lie_unfold <;> ring)
-
-/-- a supplied rotation makes the acceleration independent of the initial rotation and of the integrated one -/
-theorem known_rot_accel (g : Vec3 ℝ) (R0 R0' Rn Rn' : Quat ℝ) (f : Frame ℝ) (r : Quat ℝ) (h : f.rot = some r) :
-    removeG g R0 Rn f = removeG g R0' Rn' f := by
-  unfold removeG; rw [h]
 
 /-- the returned rotations stay unit quaternions (unit start, unit increments) -/
 theorem out_rot_unit (cfg : Cfg ℝ) (st : State ℝ) (fr : Nat → Frame ℝ) (F j : Nat) (hj : j < F)
@@ -210,88 +214,15 @@ theorem out_rot_unit (cfg : Cfg ℝ) (st : State ℝ) (fr : Nat → Frame ℝ) (
   rw [Quat.normSq_mul, hR0, seqR_unit cfg.eps fr F hu (j+1) (by omega)]
   ring
 
-/-! ## 3. input ranks `(H)`, `(F,H)`, `(B,F,H)` -/
-
-theorem checkShape_idem (s : List Nat) : checkShape (checkShape s) = checkShape s := by
-  match s with
-  | [] => rfl
-  | [_] => rfl
-  | [_, _] => rfl
-  | _ :: _ :: _ :: _ => rfl
-
-theorem length_checkShape (s : List Nat) (h1 : 0 < s.length) (h3 : s.length ≤ 3) : (checkShape s).length = 3 := by
-  match s with
-  | [] => simp at h1
-  | [_] => rfl
-  | [_, _] => rfl
-  | [_, _, _] => rfl
-  | _ :: _ :: _ :: _ :: _ => simp at h3; omega
-
-theorem rankOk_lift (a d g : List Nat) (h : rankOk a d g = true) :
-    rankOk (checkShape a) (checkShape d) (checkShape g) = true := by
-  unfold rankOk at h ⊢
-  simp only [Bool.and_eq_true, decide_eq_true_eq, beq_iff_eq] at h ⊢
-  obtain ⟨⟨⟨h1, h2⟩, h3⟩, h4⟩ := h
-  rw [length_checkShape a h1 (by omega), length_checkShape d (by omega) (by omega),
-    length_checkShape g (by omega) h4]
-  simp
-
-/-- **Rank lifting.** Whenever the rank assertion passes (equal ranks in `1..3`), calling `forward` on the raw
-tensors is the same as calling it on the `_check`ed `(B,F,H)` tensors with the same data — for every item. -/
-theorem rank_lift_equiv (cfg : Cfg ℝ) (st : State ℝ) (dt gyro acc : Tens ℝ) (rot : Option (Tens ℝ))
-    (gcov acov : Vec3 ℝ) (b : Nat) (h : rankOk acc.shape dt.shape gyro.shape = true) :
-    forwardItem cfg st dt gyro acc rot gcov acov b
-      = forwardItem cfg st dt.lift gyro.lift acc.lift (rot.map Tens.lift) gcov acov b := by
-  have hl : ∀ t : Tens ℝ, t.lift.lift = t.lift := fun t => by unfold Tens.lift; simp only [checkShape_idem]
-  unfold forwardItem
-  have h' : rankOk acc.lift.shape dt.lift.shape gyro.lift.shape = true := rankOk_lift _ _ _ h
-  rw [if_pos h, if_pos h']
-  simp only [hl, Option.map_map]
-  congr 3
-  cases rot with
-  | none => rfl
-  | some r => simp only [Option.map_some, Function.comp, hl]
-
-/-- `(H) ≡ (1,1,H)` -/
-theorem rank_equiv_H (cfg : Cfg ℝ) (st : State ℝ) (h1 h2 h3 : Nat) (d1 d2 d3 : Array ℝ) (gcov acov : Vec3 ℝ) (b : Nat) :
-    forwardItem cfg st ⟨[h1], d1⟩ ⟨[h2], d2⟩ ⟨[h3], d3⟩ none gcov acov b
-      = forwardItem cfg st ⟨[1, 1, h1], d1⟩ ⟨[1, 1, h2], d2⟩ ⟨[1, 1, h3], d3⟩ none gcov acov b :=
-  rank_lift_equiv cfg st ⟨[h1], d1⟩ ⟨[h2], d2⟩ ⟨[h3], d3⟩ none gcov acov b rfl
-
-/-- `(F,H) ≡ (1,F,H)`, with a supplied rotation of the same rank -/
-theorem rank_equiv_FH (cfg : Cfg ℝ) (st : State ℝ) (F1 F2 F3 F4 h1 h2 h3 h4 : Nat) (d1 d2 d3 d4 : Array ℝ)
-    (gcov acov : Vec3 ℝ) (b : Nat) :
-    forwardItem cfg st ⟨[F1, h1], d1⟩ ⟨[F2, h2], d2⟩ ⟨[F3, h3], d3⟩ (some ⟨[F4, h4], d4⟩) gcov acov b
-      = forwardItem cfg st ⟨[1, F1, h1], d1⟩ ⟨[1, F2, h2], d2⟩ ⟨[1, F3, h3], d3⟩ (some ⟨[1, F4, h4], d4⟩) gcov acov b :=
-  rank_lift_equiv cfg st ⟨[F1, h1], d1⟩ ⟨[F2, h2], d2⟩ ⟨[F3, h3], d3⟩ (some ⟨[F4, h4], d4⟩) gcov acov b rfl
-
-/-- the rank assertion: accepted iff the three ranks are equal and in `1..3` -/
-theorem rank_assert (cfg : Cfg ℝ) (st : State ℝ) (dt gyro acc : Tens ℝ) (rot : Option (Tens ℝ))
-    (gcov acov : Vec3 ℝ) (b : Nat) :
-    (∃ r, forwardItem cfg st dt gyro acc rot gcov acov b = .ok r) ↔
-      (1 ≤ acc.shape.length ∧ acc.shape.length = dt.shape.length ∧ dt.shape.length = gyro.shape.length ∧
-        gyro.shape.length ≤ 3) := by
-  unfold forwardItem rankOk
-  constructor
-  · intro ⟨r, hr⟩
-    split at hr
-    · rename_i h
-      simp only [Bool.and_eq_true, decide_eq_true_eq, beq_iff_eq] at h
-      omega
-    · cases hr
-  · intro ⟨h1, h2, h3, h4⟩
-    have : (decide (0 < acc.shape.length) && acc.shape.length == dt.shape.length &&
-        dt.shape.length == gyro.shape.length && decide (gyro.shape.length ≤ 3)) = true := by
-      simp only [Bool.and_eq_true, decide_eq_true_eq, beq_iff_eq]
-      omega
-    rw [if_pos this]
-    exact ⟨_, rfl⟩
+/-! ## 3. input ranks `(H)`, `(F,H)`, `(B,F,H)`: carried by the harness (see the header); consequences of the definition of
+`forwardItem` are in `Lemmas/ImuGlue.lean` -/
 
 /-! ## 4. the propagated covariance -/
 
-/-- admissible frame for the covariance clause: `dt ≥ 0`, non-negative measurement covariances -/
+/-- admissible frame for the covariance clause: `dt > 0` (the noise term divides by `dt`: at `dt = 0` the code produces
+inf / NaN while `1/0 = 0` in ℝ), non-negative measurement covariances -/
 def FrameOk (f : Frame ℝ) : Prop :=
-  0 ≤ f.dt ∧ (0 ≤ f.gcov.x ∧ 0 ≤ f.gcov.y ∧ 0 ≤ f.gcov.z) ∧ (0 ≤ f.acov.x ∧ 0 ≤ f.acov.y ∧ 0 ≤ f.acov.z)
+  0 < f.dt ∧ (0 ≤ f.gcov.x ∧ 0 ≤ f.gcov.y ∧ 0 ≤ f.gcov.z) ∧ (0 ≤ f.acov.x ∧ 0 ≤ f.acov.y ∧ 0 ≤ f.acov.z)
 
 /-- **PSD.** The returned 9×9 covariance is symmetric positive semidefinite whenever the covariance the call starts
 from is — for every frame count, ANY order of the cumulative product, any rotation inputs. -/
@@ -302,51 +233,55 @@ theorem cov_psd (cfg : Cfg ℝ) (hp : cfg.propCov = true) (st : State ℝ) (fr :
   · apply propagateCov_psd _ _ _ _ _ h0
     intro j hj
     obtain ⟨h1, h2, h3⟩ := hf j hj
-    exact noise_psd _ _ h1 h2 h3
+    exact noise_psd _ _ (le_of_lt h1) h2 h3
   · have : (toM (propagateCov cfg.left F
         (fun j => matA (covInAt st.Rij cfg.eps (integrate cfg.eps cfg.g st.rot fr F) fr j))
         (fun j => noise cfg.eps (covInAt st.Rij cfg.eps (integrate cfg.eps cfg.g st.rot fr F) fr j)) st.cov)).PosSemidef := by
       apply propagateCov_psd _ _ _ _ _ h0
       intro j hj
       obtain ⟨h1, h2, h3⟩ := hf j hj
-      exact noise_psd _ _ h1 h2 h3
+      exact noise_psd _ _ (le_of_lt h1) h2 h3
     have hh := this.isHermitian
     rwa [Matrix.IsHermitian, Matrix.conjTranspose_eq_transpose_of_trivial] at hh
 
-/-- the carried covariance stays PSD (whatever `reset` / `prop_cov`) -/
-theorem cov_state_psd (cfg : Cfg ℝ) (st : State ℝ) (fr : Nat → Frame ℝ) (F : Nat)
+/-- the carried covariance stays PSD, for every configuration the constructor admits (`reset ∨ prop_cov`, py:100-101), `F ≥ 1` -/
+theorem cov_state_psd (cfg : Cfg ℝ) (hcfg : cfg.valid = true) (st : State ℝ) (fr : Nat → Frame ℝ) (F : Nat) (_hF : 1 ≤ F)
     (h0 : (toM st.cov).PosSemidef) (hf : ∀ j, j < F → FrameOk (fr j)) :
     (toM (call cfg st none fr F).st.cov).PosSemidef := by
   by_cases hr : cfg.reset = true
   · rw [call_st_reset cfg st none fr F hr]; exact h0
-  · by_cases hp : cfg.propCov = true
-    · have hr' : cfg.reset = false := by simpa using hr
-      rw [call_st cfg st fr F hp hr']
-      apply propagateCov_psd _ _ _ _ _ h0
-      intro j hj
-      obtain ⟨h1, h2, h3⟩ := hf j hj
-      exact noise_psd _ _ h1 h2 h3
-    · have hr' : cfg.reset = false := by simpa using hr
-      have hp' : cfg.propCov = false := by simpa using hp
-      simp only [call, hr', hp', Bool.false_eq_true, if_false]
-      exact h0
+  · have hr' : cfg.reset = false := by simpa using hr
+    have hp : cfg.propCov = true := by
+      unfold Cfg.valid at hcfg
+      rw [hr'] at hcfg
+      simpa using hcfg
+    rw [call_st cfg st fr F hp hr']
+    apply propagateCov_psd _ _ _ _ _ h0
+    intro j hj
+    obtain ⟨h1, h2, h3⟩ := hf j hj
+    exact noise_psd _ _ (le_of_lt h1) h2 h3
 
 /-- **PSD over histories.** Starting from a PSD covariance (e.g. the zero matrix of a new object), after ANY sequence
-of calls every returned covariance is symmetric PSD. -/
+of calls (each on `≥ 1` frames, `dt > 0`) every returned covariance is symmetric PSD. -/
 theorem cov_psd_history (cfg : Cfg ℝ) (hp : cfg.propCov = true) (ms : List Nat) :
-    ∀ (st : State ℝ) (fr : Nat → Frame ℝ), (toM st.cov).PosSemidef → (∀ j, FrameOk (fr j)) →
+    ∀ (st : State ℝ) (fr : Nat → Frame ℝ), (∀ m ∈ ms, 1 ≤ m) → (toM st.cov).PosSemidef → (∀ j, FrameOk (fr j)) →
       ∀ r ∈ runChunks cfg st fr ms, ∃ c, r.cov = some c ∧ (toM c).PosSemidef ∧ (toM c)ᵀ = toM c := by
+  have hv : cfg.valid = true := by unfold Cfg.valid; rw [hp]; simp
   induction ms with
-  | nil => intro st fr _ _ r hr; simp [runChunks] at hr
+  | nil => intro st fr _ _ _ r hr; simp [runChunks] at hr
   | cons m ms ih =>
-    intro st fr h0 hf r hr
+    intro st fr hms h0 hf r hr
+    have hm : 1 ≤ m := hms m (by simp)
     simp only [runChunks, List.mem_cons] at hr
     rcases hr with rfl | hr
     · exact cov_psd cfg hp st fr m h0 (fun j _ => hf j)
-    · exact ih _ _ (cov_state_psd cfg st fr m h0 (fun j _ => hf j)) (fun j => hf (m + j)) r hr
+    · exact ih _ _ (fun x hx => hms x (by simp [hx])) (cov_state_psd cfg hv st fr m hm h0 (fun j _ => hf j))
+        (fun j => hf (m + j)) r hr
 
-/-- **The covariance is the documented recursion** `C_{k+1} = A_k C_k A_kᵀ + B_k` (time-ordered product, as in the
-repaired code), for every frame count: `A_k`, `B_k` built from `Rij_k = Rij·ΔR_{k+1}`, `Exp(w_k dt_k)`, the
+/-- **The covariance is the recursion** `C_{k+1} = A_k C_k A_kᵀ + B_k` (time-ordered product, as in the repaired code), for
+every frame count.  Two conventions of the CODE differ from the docstring's formula (py:198-199) and are part of `A_k`, `B_k` here:
+the noise term is `B_k = (Bg Cg Bgᵀ + Ba Ca Baᵀ)·(1/dt_k)` (the docstring has no `1/dt`: the code treats `gyro_cov`, `acc_cov` as
+continuous-time densities), and `A_k`, `Ba` use `Rij_k = Rij·ΔR_{k+1}`, the rotation AFTER step `k` (docstring: `ΔR_ik`). `A_k`, `B_k` built from `Rij_k = Rij·ΔR_{k+1}`, `Exp(w_k dt_k)`, the
 gravity-free acceleration `a_k`, `dt_k` and the measurement covariances. -/
 theorem cov_eq_recursion (cfg : Cfg ℝ) (hp : cfg.propCov = true) (hl : cfg.left = false) (st : State ℝ)
     (fr : Nat → Frame ℝ) (F : Nat) :
@@ -375,25 +310,9 @@ theorem propagateCov_eq_covSeq (F : Nat) (A B : Nat → M9 ℝ) (C0 : M9 ℝ) (i
   have := congrFun (congrFun h ⟨i, hi⟩) ⟨j, hj⟩
   simpa [toM_apply] using this
 
-/-- the model of `/repo` uses the time-ordered product -/
-theorem code_order : codeLeft = false := rfl
-
 /-- an explicit `init_state` equal to the carried buffers (no `cov` / `Rij` keys) changes nothing -/
 theorem explicit_init_default (cfg : Cfg ℝ) (st : State ℝ) (fr : Nat → Frame ℝ) (F : Nat) :
     call cfg st (some ⟨st.pos, st.rot, st.vel, none, none⟩) fr F = call cfg st none fr F := rfl
-
-/-- why small examples could not see the reversed product (D27): for one frame, and for two frames from a zero
-covariance, both orders of the cumulative product give the same covariance -/
-theorem cov_orders_agree_small (F : Nat) (A B : Nat → M9 ℝ) (C0 : M9 ℝ)
-    (h : F ≤ 1 ∨ (F = 2 ∧ toM C0 = 0)) :
-    toM (propagateCov true F A B C0) = toM (propagateCov false F A B C0) := by
-  rw [toM_propagateCov, toM_propagateCov]
-  rcases h with h | ⟨rfl, h0⟩
-  · have : F = 0 ∨ F = 1 := by omega
-    rcases this with rfl | rfl
-    · simp [qProd]
-    · simp [Finset.sum_range_succ, qProd, toM_mul, toM_one]
-  · simp [Finset.sum_range_succ, qProd, toM_mul, toM_one, bSeq, h0]
 
 /-! ## 5. object reuse, per-call arguments, item-wise = batched (hardening pass) -/
 
@@ -410,7 +329,8 @@ theorem explicit_init_full_independent (cfg : Cfg ℝ) (st st' : State ℝ) (i :
 of THIS call's arguments: two objects with the same constructor state give the same result whatever calls (any
 sizes, any arguments) each has served before. -/
 theorem reset_call_history_free (cfg : Cfg ℝ) (hr : cfg.reset = true) (st : State ℝ)
-    (ms ms' : List Nat) (fr0 fr0' : Nat → Frame ℝ) (init : Option (Init ℝ)) (fr : Nat → Frame ℝ) (F : Nat) :
+    (ms ms' : List Nat) (_hms : ∀ m ∈ ms, 1 ≤ m) (_hms' : ∀ m ∈ ms', 1 ≤ m) (fr0 fr0' : Nat → Frame ℝ)
+    (init : Option (Init ℝ)) (fr : Nat → Frame ℝ) (F : Nat) (_hF : 1 ≤ F) :
     let after := fun (l : List Nat) (f : Nat → Frame ℝ) => ((runChunks cfg st f l).getLast?.map (·.st)).getD st
     call cfg (after ms fr0) init fr F = call cfg (after ms' fr0') init fr F := by
   have key : ∀ (l : List Nat) (f : Nat → Frame ℝ) (s : State ℝ), ∀ r ∈ runChunks cfg s f l, r.st = s := by
@@ -432,66 +352,7 @@ theorem reset_call_history_free (cfg : Cfg ℝ) (hr : cfg.reset = true) (st : St
     | some r => simp only [Option.map_some, Option.getD_some]; exact key l f st r (List.mem_of_getLast? h)
   simp only [aft]
 
-/-- **Item-wise = batched.** Item `b` of a call on `(B,F,H)` tensors only reads item `b`'s entries: two batches
-(possibly of different batch size) that agree on item `b` give the same result for that item. -/
-theorem item_independent (cfg : Cfg ℝ) (st : State ℝ) (dt gyro acc dt' gyro' acc' : Tens ℝ) (gcov acov : Vec3 ℝ)
-    (b b' : Nat) (hF : dt.lift.F = dt'.lift.F)
-    (hok : rankOk acc.shape dt.shape gyro.shape = rankOk acc'.shape dt'.shape gyro'.shape)
-    (hdt : ∀ f c, dt.lift.at3 b f c = dt'.lift.at3 b' f c)
-    (hg : ∀ f c, gyro.lift.at3 b f c = gyro'.lift.at3 b' f c)
-    (ha : ∀ f c, acc.lift.at3 b f c = acc'.lift.at3 b' f c) :
-    forwardItem cfg st dt gyro acc none gcov acov b = forwardItem cfg st dt' gyro' acc' none gcov acov b' := by
-  unfold forwardItem
-  rw [hok]
-  simp only
-  rw [hF]
-  have : framesOf dt.lift gyro.lift acc.lift (Option.map Tens.lift none) gcov acov b
-      = framesOf dt'.lift gyro'.lift acc'.lift (Option.map Tens.lift none) gcov acov b' := by
-    funext f
-    simp only [framesOf, Tens.vec, hdt, hg, ha, Option.map_none]
-  rw [this]
-
 /-! ## 6. error paths are atomic (hardening pass 2) -/
-
-/-- **A call that raises changes nothing.** -/
-theorem failed_call_atomic (cfg : Cfg ℝ) (st : State ℝ) (q : CallReq ℝ) (h : q.ok = false) :
-    callE cfg st q = (.error "raise", st) := by
-  simp only [callE, h, Bool.false_eq_true, if_false]
-
-/-- a successful request is the plain call -/
-theorem ok_call (cfg : Cfg ℝ) (st : State ℝ) (q : CallReq ℝ) (h : q.ok = true) :
-    callE cfg st q = (.ok (call cfg st q.init q.fr q.F), (call cfg st q.init q.fr q.F).st) := by
-  simp only [callE, h, if_true]
-
-/-- **Histories with failures.** The caller catches every exception and goes on (retries, feeds the next chunk): the
-successful results and the final carried state are exactly those of the history WITHOUT the failed calls — for every
-sequence of requests, every position and number of failures. -/
-theorem failures_invisible (cfg : Cfg ℝ) (qs : List (CallReq ℝ)) :
-    ∀ st : State ℝ,
-      okResults (runReqs cfg st qs).1 = okResults (runReqs cfg st (qs.filter (·.ok))).1 ∧
-      (runReqs cfg st qs).2 = (runReqs cfg st (qs.filter (·.ok))).2 := by
-  induction qs with
-  | nil => intro st; exact ⟨rfl, rfl⟩
-  | cons q qs ih =>
-    intro st
-    by_cases h : q.ok = true
-    · have hf : (q :: qs).filter (·.ok) = q :: qs.filter (·.ok) := by simp [List.filter, h]
-      rw [hf]
-      simp only [runReqs, ok_call cfg st q h, okResults]
-      obtain ⟨h1, h2⟩ := ih (call cfg st q.init q.fr q.F).st
-      exact ⟨by rw [h1], h2⟩
-    · have h' : q.ok = false := by simpa using h
-      have hf : (q :: qs).filter (·.ok) = qs.filter (·.ok) := by simp [List.filter, h']
-      rw [hf]
-      simp only [runReqs, failed_call_atomic cfg st q h', okResults]
-      exact ih st
-
-/-- retry after a failure = the call without the failure (the chunk is integrated once, not twice) -/
-theorem retry_after_failure (cfg : Cfg ℝ) (st : State ℝ) (q : CallReq ℝ) (h : q.ok = true) :
-    okResults (runReqs cfg st [{ q with ok := false }, q]).1 = okResults (runReqs cfg st [q]).1 ∧
-    (runReqs cfg st [{ q with ok := false }, q]).2 = (runReqs cfg st [q]).2 := by
-  have := failures_invisible cfg [{ q with ok := false }, q] st
-  simpa [List.filter, h] using this
 
 /-! ## 7. chunk invariance for EVERY increment: exact defect and bound (pass 3) -/
 
@@ -601,68 +462,33 @@ theorem chunk_two_exact_of_unit (cfg : Cfg ℝ) (hr : cfg.reset = false) (hp : c
   · rw [h2]; ext <;> lie_unfold <;> ring
   · rw [h3]; ext <;> lie_unfold <;> ring
 
-/-- non-vacuity: a stream in the Taylor band (`‖w dt‖ = 2⁻⁶⁰ ≤ eps = 2⁻⁵²`) satisfies the hypotheses of
-`chunk_two_every_stream` although its increments are not exactly unit -/
-example : ∃ (cfg : Cfg ℝ) (st : State ℝ), cfg.reset = false ∧ cfg.propCov = true ∧ 0 ≤ cfg.eps ∧ cfg.eps ≤ 1 ∧
-    st.rot.normSq = 1 := by
-  refine ⟨⟨(2:ℝ)^(-52:ℤ), ⟨0, 0, 9.81⟩, false, true, false⟩, State.fresh ⟨1, 2, 3⟩ ⟨0.6, 0, 0, 0.8⟩ ⟨0, 1, 0⟩,
-    rfl, rfl, by positivity, ?_, ?_⟩
+/-- non-vacuity: a concrete stream in the Taylor band (`‖w dt‖ = 2⁻⁶⁰`, `0 < ‖w dt‖ ≤ eps = 2⁻⁵²`, so the increments are NOT
+exactly unit), cut after `m = 2` of `m + n = 5` frames, frame `j = 1` of the second chunk — all hypotheses of
+`chunk_two_every_stream` hold -/
+example : ∃ (cfg : Cfg ℝ) (st : State ℝ) (fr : Nat → Frame ℝ) (m n j : Nat),
+    cfg.reset = false ∧ cfg.propCov = true ∧ 0 ≤ cfg.eps ∧ cfg.eps ≤ 1 ∧ st.rot.normSq = 1 ∧ 1 ≤ m ∧ j < n ∧
+    (∀ i, 0 < ((fr i).gyro.smul (fr i).dt).norm ∧ ((fr i).gyro.smul (fr i).dt).norm ≤ cfg.eps) := by
+  refine ⟨⟨(2:ℝ)^(-52:ℤ), ⟨0, 0, -9.81⟩, false, true, false⟩, State.fresh ⟨1, 2, 3⟩ ⟨0.6, 0, 0, 0.8⟩ ⟨0, 1, 0⟩,
+    fun _ => ⟨1, ⟨(2:ℝ)^(-60:ℤ), 0, 0⟩, ⟨0.1, 0.2, 9.7⟩, none, ⟨1e-5, 1e-5, 1e-5⟩, ⟨6e-3, 6e-3, 6e-3⟩⟩, 2, 3, 1,
+    rfl, rfl, by positivity, ?_, ?_, by norm_num, by norm_num, ?_⟩
   · show (2:ℝ)^(-52:ℤ) ≤ 1
     rw [_root_.zpow_neg]; exact inv_le_one_of_one_le₀ (by norm_num)
   · simp only [State.fresh]; lie_unfold; norm_num
-
+  · intro _
+    have hn : (Vec3.smul (1:ℝ) (⟨(2:ℝ)^(-60:ℤ), 0, 0⟩ : Vec3 ℝ)).norm = (2:ℝ)^(-60:ℤ) := by
+      unfold Vec3.norm Vec3.normSq Vec3.smul
+      simp only [one_mul, mul_zero, add_zero]
+      exact Real.sqrt_mul_self (by positivity)
+    show 0 < (Vec3.smul (1:ℝ) (⟨(2:ℝ)^(-60:ℤ), 0, 0⟩ : Vec3 ℝ)).norm ∧ (Vec3.smul (1:ℝ) (⟨(2:ℝ)^(-60:ℤ), 0, 0⟩ : Vec3 ℝ)).norm ≤ (2:ℝ)^(-52:ℤ)
+    rw [hn]
+    exact ⟨by positivity, zpow_le_zpow_right₀ (by norm_num) (by norm_num)⟩
 
 /-! ## 8. argument resolution of `forward` (pass 3) -/
-
-/-- per-call covariance vs constructor covariance: not given → the module's value on every frame; one `(B,1,3)` row → that
-row on every frame; `(B,F,3)` → frame by frame -/
-theorem resolveCov_spec (dflt v : Vec3 ℝ) (f : Nat → Vec3 ℝ) (j : Nat) :
-    resolveCov dflt CovArg.none j = dflt ∧ resolveCov dflt (CovArg.row v) j = v ∧ resolveCov dflt (CovArg.rows f) j = f j :=
-  ⟨rfl, rfl, rfl⟩
-
-/-- the two covariance arguments are resolved independently: giving exactly one leaves the other at the module's value -/
-theorem one_cov_given (modG modA : Vec3 ℝ) (f : Nat → Vec3 ℝ) (raw : Nat → RawFrame ℝ) (j : Nat) :
-    (resolveFrames modG modA (CovArg.rows f) CovArg.none raw j).gcov = f j ∧
-    (resolveFrames modG modA (CovArg.rows f) CovArg.none raw j).acov = modA ∧
-    (resolveFrames modG modA CovArg.none (CovArg.rows f) raw j).gcov = modG ∧
-    (resolveFrames modG modA CovArg.none (CovArg.rows f) raw j).acov = f j := ⟨rfl, rfl, rfl, rfl⟩
-
-/-- a `(B,1,3)` covariance is the `(B,F,3)` covariance with equal rows -/
-theorem row_eq_const_rows (cfg : Cfg ℝ) (modG modA : Vec3 ℝ) (st : State ℝ) (init : Option (InitDict ℝ)) (v : Vec3 ℝ)
-    (ac : CovArg ℝ) (raw : Nat → RawFrame ℝ) (F : Nat) :
-    forwardArgs cfg modG modA st init (CovArg.row v) ac raw F
-      = forwardArgs cfg modG modA st init (CovArg.rows fun _ => v) ac raw F := rfl
-
-/-- no `init_state`, no per-call covariances: the plain call with the module's covariances on every frame -/
-theorem forwardArgs_default (cfg : Cfg ℝ) (modG modA : Vec3 ℝ) (st : State ℝ) (raw : Nat → RawFrame ℝ) (F : Nat) :
-    forwardArgs cfg modG modA st none CovArg.none CovArg.none raw F =
-      (.ok (call cfg st none (fun j => ⟨(raw j).dt, (raw j).gyro, (raw j).acc, (raw j).rot, modG, modA⟩) F),
-       (call cfg st none (fun j => ⟨(raw j).dt, (raw j).gyro, (raw j).acc, (raw j).rot, modG, modA⟩) F).st) := by
-  have e : resolveFrames modG modA CovArg.none CovArg.none raw
-      = fun j => ⟨(raw j).dt, (raw j).gyro, (raw j).acc, (raw j).rot, modG, modA⟩ := by funext j; rfl
-  simp only [forwardArgs, resolveInit, e]
-
-/-- a complete dict: the call starts from the dict's `pos, rot, vel`; `cov` = the dict's unless absent / None; `Rij` = the
-dict's (possibly None) if the key is present -/
-theorem forwardArgs_dict (cfg : Cfg ℝ) (modG modA : Vec3 ℝ) (st : State ℝ) (p : Vec3 ℝ) (r : Quat ℝ) (v : Vec3 ℝ)
-    (cov : Option (Option (M9 ℝ))) (rij : Option (Option (Quat ℝ))) (gc ac : CovArg ℝ) (raw : Nat → RawFrame ℝ) (F : Nat) :
-    (forwardArgs cfg modG modA st (some ⟨some p, some r, some v, cov, rij⟩) gc ac raw F).1 =
-      .ok (call cfg st (some ⟨p, r, v, joinCov cov, rij⟩)
-        (resolveFrames modG modA gc ac raw) F) := by
-  simp only [forwardArgs, resolveInit]
 
 /-- `'cov': None` is the same as no `'cov'` key -/
 theorem cov_none_is_absent (p : Option (Vec3 ℝ)) (r : Option (Quat ℝ)) (v : Option (Vec3 ℝ)) (rij : Option (Option (Quat ℝ))) :
     resolveInit (some ⟨p, r, v, some none, rij⟩) = resolveInit (some ⟨p, r, v, none, rij⟩) := by
   cases p <;> cases r <;> cases v <;> rfl
-
-/-- a dict without one of the required keys raises, and the object is untouched -/
-theorem missing_key_atomic (cfg : Cfg ℝ) (modG modA : Vec3 ℝ) (st : State ℝ) (d : InitDict ℝ) (gc ac : CovArg ℝ)
-    (raw : Nat → RawFrame ℝ) (F : Nat) (h : d.pos = none ∨ d.rot = none ∨ d.vel = none) :
-    forwardArgs cfg modG modA st (some d) gc ac raw F = (.error "KeyError", st) := by
-  obtain ⟨p, r, v, c, j⟩ := d
-  simp only at h
-  cases p <;> cases r <;> cases v <;> simp_all [forwardArgs, resolveInit]
 
 /-- accepted dicts are exactly those with the three required keys -/
 theorem resolveInit_ok_iff (d : InitDict ℝ) :
@@ -735,7 +561,7 @@ theorem cov_psd_init (cfg : Cfg ℝ) (hp : cfg.propCov = true) (st : State ℝ) 
     apply propagateCov_psd _ _ _ _ _ h0
     intro j hj
     obtain ⟨h1, h2, h3⟩ := hf j hj
-    exact noise_psd _ _ h1 h2 h3
+    exact noise_psd _ _ (le_of_lt h1) h2 h3
   refine ⟨_, call_cov_gen cfg st init fr F hp, hpsd, ?_⟩
   have hh := hpsd.isHermitian
   rwa [Matrix.IsHermitian, Matrix.conjTranspose_eq_transpose_of_trivial] at hh
@@ -743,7 +569,7 @@ theorem cov_psd_init (cfg : Cfg ℝ) (hp : cfg.propCov = true) (st : State ℝ) 
 /-- resolved frames are admissible for the covariance clause when the module's and the per-call covariances are
 non-negative and `dt ≥ 0` -/
 theorem resolveFrames_ok (modG modA : Vec3 ℝ) (gc ac : CovArg ℝ) (raw : Nat → RawFrame ℝ) (j : Nat)
-    (hdt : 0 ≤ (raw j).dt)
+    (hdt : 0 < (raw j).dt)
     (hg : 0 ≤ (resolveCov modG gc j).x ∧ 0 ≤ (resolveCov modG gc j).y ∧ 0 ≤ (resolveCov modG gc j).z)
     (ha : 0 ≤ (resolveCov modA ac j).x ∧ 0 ≤ (resolveCov modA ac j).y ∧ 0 ≤ (resolveCov modA ac j).z) :
     FrameOk (resolveFrames modG modA gc ac raw j) := ⟨hdt, hg, ha⟩
@@ -755,61 +581,82 @@ example : ∃ d : InitDict ℝ, d.pos = none ∨ d.rot = none ∨ d.vel = none :
 
 /-! ## 9. sign and size of the gravity constant (round 4, class 26) -/
 
-/-- the rotation `removeG` uses: the supplied one, else `R₀ · ΔR` after the step -/
-noncomputable def usedRot (R0 Rnext : Quat ℝ) (f : Frame ℝ) : Quat ℝ :=
-  match f.rot with
-  | some r => r
-  | none => R0.mul Rnext
-
-theorem removeG_usedRot (g : Vec3 ℝ) (R0 Rnext : Quat ℝ) (f : Frame ℝ) :
-    removeG g R0 Rnext f = f.acc.sub ((usedRot R0 Rnext f).conj.act g) := by
-  unfold removeG usedRot; cases f.rot <;> rfl
-
-/-- **The recursion holds for EVERY real gravity constant** — positive (z-up), negative (z-down / NED), zero, tiny, huge: the
-gravity vector `(0,0,g_z)` enters only through `a = acc − R⁻¹ g`. -/
-theorem par_eq_seq_every_gravity (eps gz : ℝ) (reset propCov left : Bool) (st : State ℝ) (fr : Nat → Frame ℝ) (F j : Nat)
-    (hj : j < F) :
-    outAt (call ⟨eps, ⟨0, 0, gz⟩, reset, propCov, left⟩ st none fr F).outs j
-      = compose st.pos st.rot st.vel (preSeq eps ⟨0, 0, gz⟩ st.rot fr (j+1)) :=
-  par_eq_seq _ st fr F j hj
-
-/-- flipping the sign of the gravity constant turns the subtraction into an addition (z-down convention) -/
-theorem removeG_neg_gravity (g : Vec3 ℝ) (R0 Rnext : Quat ℝ) (f : Frame ℝ) :
-    removeG g.neg R0 Rnext f = f.acc.add ((usedRot R0 Rnext f).conj.act g) := by
-  rw [removeG_usedRot, Quat.act_neg]; ext <;> lie_unfold <;> ring
-
-/-- **Gravity removal can be skipped only for `g = 0`**: with a unit rotation, `a = acc` iff the gravity vector is zero —
-in particular NOT for any negative gravity constant. -/
-theorem zero_g_fast_path_iff (g : Vec3 ℝ) (R0 Rnext : Quat ℝ) (f : Frame ℝ) (hu : (usedRot R0 Rnext f).normSq = 1) :
-    removeG g R0 Rnext f = f.acc ↔ g = Vec3.zero := by
-  rw [removeG_usedRot]
-  have hc : (usedRot R0 Rnext f).conj.normSq = 1 := by rw [Quat.normSq_conj, hu]
-  constructor
-  · intro h
-    have hz : ((usedRot R0 Rnext f).conj.act g).normSq = 0 := by
-      have e : (usedRot R0 Rnext f).conj.act g = f.acc.sub (f.acc.sub ((usedRot R0 Rnext f).conj.act g)) := by
-        ext <;> lie_unfold <;> ring
-      rw [e, h]; lie_unfold; ring
-    rw [Quat.act_normSq _ hc] at hz
-    have hx : g.x = 0 ∧ g.y = 0 ∧ g.z = 0 := by
-      unfold Vec3.normSq at hz
-      refine ⟨?_, ?_, ?_⟩ <;> nlinarith [mul_self_nonneg g.x, mul_self_nonneg g.y, mul_self_nonneg g.z]
-    ext <;> simp [Vec3.zero, hx.1, hx.2.1, hx.2.2]
-  · intro h
-    rw [h, Quat.act_zero]; ext <;> lie_unfold <;> ring
-
-/-- a negative gravity constant is NOT zero gravity: the acceleration differs from the raw measurement by exactly `|g_z|` -/
-theorem negative_gravity_is_removed (gz : ℝ) (hg : gz < 0) (R0 Rnext : Quat ℝ) (f : Frame ℝ)
-    (hu : (usedRot R0 Rnext f).normSq = 1) : removeG ⟨0, 0, gz⟩ R0 Rnext f ≠ f.acc := by
-  intro h
-  have := (zero_g_fast_path_iff ⟨0, 0, gz⟩ R0 Rnext f hu).mp h
-  have hz : gz = 0 := by
-    have := congrArg Vec3.z this
-    simpa [Vec3.zero] using this
-  linarith
-
 example : (usedRot (⟨0.6, 0, 0, 0.8⟩ : Quat ℝ) Quat.one ⟨0.01, ⟨0, 0, 0⟩, ⟨0, 0, -9.81⟩, none, ⟨1e-5, 1e-5, 1e-5⟩, ⟨6e-3, 6e-3, 6e-3⟩⟩).normSq = 1 := by
   simp only [usedRot, Quat.mul_one']; lie_unfold; norm_num
+
+
+/-! ## 10. the docstring's convention (audit): gravity outside the acceleration, order of the composition -/
+
+/-- **Docstring form ⇔ code form.** If gravity is removed with the rotation at the START of every step — e.g. a supplied
+rotation `rot_k = R₀·ΔR_k` — then the increments with gravity removed INSIDE the acceleration (what `integrate` computes, C16's
+wording) and the RAW increments of the docstring (`g = 0` in `preSeq`: `Δv_raw = Σ ΔR_k acc_k dt`) are related by
+`Δv = Δv_raw − Δt·R₀⁻¹g`, `Δp = Δp_raw − ½Δt²·R₀⁻¹g`, same `ΔR`, `Δt`. -/
+theorem inside_eq_outside_increments (eps : ℝ) (g : Vec3 ℝ) (R0 : Quat ℝ) (fr : Nat → Frame ℝ) (N : Nat)
+    (h0 : R0.normSq = 1) (hu : ∀ i, i < N → (dr eps (fr i)).normSq = 1)
+    (hrot : ∀ k, k < N → (fr k).rot = some (R0.mul (seqR eps fr k))) :
+    ∀ n, n ≤ N →
+      (preSeq eps g R0 fr n).dv = (preSeq eps Vec3.zero R0 fr n).dv.sub ((R0.conj.act g).smul (preSeq eps g R0 fr n).t) ∧
+      (preSeq eps g R0 fr n).dp = (preSeq eps Vec3.zero R0 fr n).dp.sub
+        ((R0.conj.act g).smul ((preSeq eps g R0 fr n).t * (preSeq eps g R0 fr n).t / 2)) ∧
+      (preSeq eps g R0 fr n).t = (preSeq eps Vec3.zero R0 fr n).t := by
+  intro n
+  induction n with
+  | zero =>
+    intro _
+    simp only [preSeq, Pre.init]
+    refine ⟨?_, ?_, trivial⟩ <;> (ext <;> lie_unfold <;> ring)
+  | succ n ih =>
+    intro hn
+    obtain ⟨h1, h2, h3⟩ := ih (by omega)
+    have hRn : (seqR eps fr n).normSq = 1 := seqR_unit eps fr N hu n (by omega)
+    have ha : (seqR eps fr n).act (aSeq eps g R0 fr n)
+        = ((seqR eps fr n).act (aSeq eps Vec3.zero R0 fr n)).sub (R0.conj.act g) := by
+      unfold aSeq removeG
+      rw [hrot n (by omega)]
+      simp only [Quat.act_zero]
+      rw [vact_sub, vact_sub, start_rotation_gravity g R0 _ h0 hRn]
+      ext <;> lie_unfold <;> ring
+    refine ⟨?_, ?_, ?_⟩
+    · rw [preSeq_dv_succ, preSeq_dv_succ, preSeq_t_succ, h1, ha]
+      ext <;> simp only [Vec3.add, Vec3.sub, Vec3.smul] <;> ring
+    · rw [preSeq_dp_succ, preSeq_dp_succ, preSeq_t_succ, h2, h1, ha]
+      simp only [q_real, Nat.cast_one, Nat.cast_ofNat]
+      ext <;> simp only [Vec3.add, Vec3.sub, Vec3.smul] <;> ring
+    · rw [preSeq_t_succ, preSeq_t_succ, h3]
+
+/-- **The docstring's propagation formulas** `v_j = R_i Δv_raw + v_i + g_doc Δt`, `p_j = R_i Δp_raw + p_i + v_i Δt + ½ g_doc Δt²`
+hold for the code with `g_doc = −g` (the docstring's gravity is the negative of the constructor's gravity vector) — exactly, under
+the start-of-step condition of `inside_eq_outside_increments`.  In the integrated-rotation branch the code removes gravity with the
+rotation AFTER the step, so there the two forms differ at first order in `w·dt`; the property (and §1) fix the inside form. -/
+theorem doc_form_of_start_rotation (eps : ℝ) (g p0 : Vec3 ℝ) (R0 : Quat ℝ) (v0 : Vec3 ℝ) (fr : Nat → Frame ℝ) (N : Nat)
+    (h0 : R0.normSq = 1) (hu : ∀ i, i < N → (dr eps (fr i)).normSq = 1)
+    (hrot : ∀ k, k < N → (fr k).rot = some (R0.mul (seqR eps fr k))) (n : Nat) (hn : n ≤ N) :
+    let o := compose p0 R0 v0 (preSeq eps g R0 fr n)
+    let raw := preSeq eps Vec3.zero R0 fr n
+    o.vel = ((R0.act raw.dv).add v0).add (g.neg.smul raw.t) ∧
+    o.pos = (((R0.act raw.dp).add p0).add (v0.smul raw.t)).add (g.neg.smul (raw.t * raw.t / 2)) := by
+  obtain ⟨h1, h2, h3⟩ := inside_eq_outside_increments eps g R0 fr N h0 hu hrot n hn
+  have hg : R0.act (R0.conj.act g) = g := Quat.act_conj_act R0 h0 g
+  simp only [compose]
+  rw [h1, h2, h3, vact_sub, vact_sub, Quat.act_smul, Quat.act_smul, hg]
+  constructor <;> (ext <;> simp only [Vec3.add, Vec3.sub, Vec3.smul, Vec3.neg] <;> ring)
+
+/-- the docstring writes `R_j = ΔR_ij * R_i`; the code (and the increments' own definition `ΔR ← ΔR·Exp(w dt)`) needs
+`R_i · ΔR_ij` — the two orders differ already for two quarter turns about different axes -/
+theorem doc_order_differs : ∃ R D : Quat ℝ, R.normSq = 1 ∧ D.normSq = 1 ∧ R.mul D ≠ D.mul R := by
+  refine ⟨⟨1, 0, 0, 0⟩, ⟨0, 1, 0, 0⟩, by lie_unfold; norm_num, by lie_unfold; norm_num, ?_⟩
+  intro h
+  have := congrArg Quat.z h
+  simp only [Quat.mul] at this
+  norm_num at this
+
+/-- non-vacuity of the start-of-step condition: one frame whose supplied rotation is the initial rotation -/
+example : ∃ (R0 : Quat ℝ) (fr : Nat → Frame ℝ), R0.normSq = 1 ∧ (∀ k, k < 1 → (fr k).rot = some (R0.mul (seqR 1e-16 fr k))) :=
+  ⟨⟨0.6, 0, 0, 0.8⟩, fun _ => ⟨0.01, ⟨0.1, 0.2, 0.3⟩, ⟨0, 0, 9.81⟩, some ⟨0.6, 0, 0, 0.8⟩, ⟨1e-5, 1e-5, 1e-5⟩, ⟨6e-3, 6e-3, 6e-3⟩⟩,
+    by lie_unfold; norm_num, fun k hk => by
+      have : k = 0 := by omega
+      subst this
+      simp only [seqR, Quat.mul_one']⟩
 
 
 /-! ## non-vacuity of the hypotheses -/
